@@ -142,6 +142,15 @@ def run(ctx, B):
                     ctx.violation("%s|Crystal_MakeCopy|hostile-crystal|%s" % (cfg, var), "Crystal_MakeCopy / dump of the source / second copy of the hostile user crystal %r: %s during %s" % (
                         specs[j], "sanitizer report" if rr["flags"][j] & F_SAN else "leak", opn), dict(cfg=cfg, variant=var, note="user crystal: " + specs[j], calls=[]))
                     break
+        # the hostile structs may have left the driver processes with a damaged heap (that is what this section is looking for): later sections start from fresh processes
+        for X_ in (XP, XA):
+            for d_ in X_.drivers:
+                if d_ is not None:
+                    try:
+                        d_.p.kill(); d_.p.wait()
+                    except Exception:
+                        pass
+            X_.drivers = []; X_.preamble = []
         if cfg == "A":
             # --- formula strings: the C07 corpus with all its single-byte mutations, under leak accounting and ASan
             import c07
@@ -278,7 +287,13 @@ def run(ctx, B):
 def main(tier, seed):
     ctx = common.Ctx(PID, tier, seed, "model_checking", deadline_s=1500 if tier == "quick" else 5400)
     B = build.Build()
-    run(ctx, B)
+    try:
+        run(ctx, B)
+    except xrl.DriverDied as ex:
+        # every batch of this check goes through the crash-containing calls; a library process that dies OUTSIDE one (while being restarted, while serving a
+        # bookkeeping request) has had its heap corrupted by an earlier call: for a memory-safety property that is a violation, not an infrastructure problem
+        ctx.violation("process-died-outside-a-contained-call", "a driver process linked with the library died during a bookkeeping request after earlier library calls: %s" % ex)
+        ctx.cov["exhaustive"] = False
     return ctx.finish()
 
 
